@@ -134,6 +134,11 @@ func (o *lifeOracle) c11(e *Env, si *StepInfo) {
 			data := po.DataId
 			remaining := 0
 			for _, x := range cur.Order.Shards {
+				// (a migration target that was never stored, or a shard that timed out, is not a shard
+				// of the model that could still "go")
+				if x.Status == ordertypes.ShardMigrating || x.Status == ordertypes.ShardTimeout {
+					continue
+				}
 				if ord, ok := cur.Order.Orders[x.OrderId]; ok && ord.DataId == data {
 					remaining++
 				}
